@@ -1,7 +1,7 @@
 (** C05, dynamics of ALL mapped mass-action reactions together: the derivatives of the isotopomers of a compound,
     summed, equal the base model's derivative (sum over the reactions of coefficient * rate) evaluated at the
     isotopomer totals -- in an arbitrary commutative ring, at every state.  Built on
-    IsoProofs.dynamics_collapse_rxn by linearity of [deriv] over the concatenated reaction list. *)
+    IsoProofs.dynamics_collapse_rxn_gen by linearity of [deriv] over the concatenated reaction list. *)
 From Coq Require Import List ZArith NArith Bool Arith Lia Permutation Ring InitialRing.
 From MxlBase Require Import ListX.
 From Label Require Import LModel Iso Algebra IsoProofs IsoInitProofs IsoPropsZ.
@@ -34,32 +34,35 @@ Section IsoWhole.
   Proof. unfold deriv. rewrite map_app. apply s_app. Qed.
 
   Theorem dynamics_collapse_model :
-    forall (ext_bit : bool) (lv : label_vars) (rms : list (brxn * list Z)) (env : lname -> R) (irs : list (list lrxn)) (c : N),
+    forall (ext_bit : bool) (rk : repl_kind) (lv : label_vars) (rms : list (brxn * list Z)) (env : lname -> R)
+           (irs : list (list lrxn)) (c : N),
       Forall (fun rm =>
                 let r := fst rm in
                 let bs := subs_of (r_stoich r) in let bp := prods_of (r_stoich r) in
                 exists extra : list N,
-                  r_fn r = FProd /\ Permutation (r_args r) (bs ++ extra) /\ NoDup (map fst (r_stoich r)) /\ NoDup bs /\
-                  (forall a, In a extra -> ~ In a bs /\ ~ In a bp /\ nlab lv a = O) /\
+                  r_fn r = FProd /\ Permutation (r_args r) (bs ++ extra) /\ NoDup (map fst (r_stoich r)) /\
+                  (rk = ReplPositional \/ NoDup bs) /\
+                  (forall a, In a extra -> ~ In a bs /\ ~ In a bp /\ env (ext_name rk lv a) = Benv lv env a) /\
                   total (labels_per lv bp) <= length (snd rm)) rms ->
-      collect (map (fun rm => create_iso_rxns ext_bit lv (fst rm) (snd rm)) rms) = Ok irs ->
+      collect (map (fun rm => create_iso_rxns ext_bit rk lv (fst rm) (snd rm)) rms) = Ok irs ->
       sum (map (fun bits => Deriv env (concat irs) (iso_name c bits)) (all_patterns (nlab lv c)))
       = sum (map (fun rm => ofZ (match getN c (r_stoich (fst rm)) with Some v => v | None => 0%Z end)
                             * prod (map (Benv lv env) (r_args (fst rm)))) rms).
   Proof.
-    intros ext_bit lv rms env irs c Hwf. revert irs.
+    intros ext_bit rk lv rms env irs c Hwf. revert irs.
     induction Hwf as [|rm rms Hrm _ IH]; intros irs Hi; cbn [map collect] in Hi.
     - inversion Hi; subst irs. cbn [concat map]. rewrite (s_ext _ _ (fun _ => 0)) by (intros; reflexivity). apply s_zero.
-    - destruct (create_iso_rxns ext_bit lv (fst rm) (snd rm)) as [ir|] eqn:Hir; [|discriminate].
-      destruct (collect (map (fun rm0 => create_iso_rxns ext_bit lv (fst rm0) (snd rm0)) rms)) as [irs'|] eqn:Hi'; [|discriminate].
+    - destruct (create_iso_rxns ext_bit rk lv (fst rm) (snd rm)) as [ir|] eqn:Hir; [|discriminate].
+      destruct (collect (map (fun rm0 => create_iso_rxns ext_bit rk lv (fst rm0) (snd rm0)) rms)) as [irs'|] eqn:Hi'; [|discriminate].
       inversion Hi; subst irs. cbn [concat map]. rewrite s_cons, <- (IH irs' eq_refl).
-      cbv zeta in Hrm. destruct Hrm as [extra [Hfn [Hargs [Hnd [Hndb [Hextra Hlen]]]]]].
-      rewrite <- (dynamics_collapse_rxn R rO rI radd rmul rsub ropp rinv ofZ Rth ofZ_0 ofZ_1 ofZ_add ofZ_opp
-                    ext_bit lv (fst rm) (snd rm) env extra Hfn Hargs Hnd Hndb Hextra c ir Hir Hlen).
+      cbv zeta in Hrm. destruct Hrm as [extra [Hfn [Hargs [Hnd [Hrk [Hextra Hlen]]]]]].
+      rewrite <- (dynamics_collapse_rxn_gen R rO rI radd rmul rsub ropp rinv ofZ Rth ofZ_0 ofZ_1 ofZ_add ofZ_opp
+                    ext_bit rk lv (fst rm) (snd rm) env extra Hfn Hargs Hnd Hrk Hextra c ir Hir Hlen).
       rewrite <- s_add. apply s_ext. intros bits _. apply deriv_app'.
   Qed.
 End IsoWhole.
 
+(** dict form (the tree before fixes/C05-homodimer.diff): guarded *)
 Theorem dynamics_collapse_model_Z :
   forall (lv : label_vars) (rms : list (brxn * list Z)) (env : lname -> Z) (irs : list (list lrxn)) (c : N),
     Forall (fun rm =>
@@ -69,13 +72,41 @@ Theorem dynamics_collapse_model_Z :
                 r_fn r = FProd /\ Permutation (r_args r) (bs ++ extra) /\ NoDup (map fst (r_stoich r)) /\ NoDup bs /\
                 (forall a, In a extra -> ~ In a bs /\ ~ In a bp /\ nlab lv a = O) /\
                 total (labels_per lv bp) <= length (snd rm)) rms ->
-    collect (map (fun rm => create_iso_rxns true lv (fst rm) (snd rm)) rms) = Ok irs ->
+    collect (map (fun rm => create_iso_rxns true ReplDict lv (fst rm) (snd rm)) rms) = Ok irs ->
     sumZ (map (fun bits => derivZ env (concat irs) (iso_name c bits)) (all_patterns (nlab lv c)))
     = sumZ (map (fun rm => ((match getN c (r_stoich (fst rm)) with Some v => v | None => 0 end)
                             * prodZ (map (totalZ lv env) (r_args (fst rm))))%Z) rms).
 Proof.
   intros lv rms env irs c Hwf Hi.
-  exact (dynamics_collapse_model Z 0%Z 1%Z Z.add Z.mul Z.sub Z.opp idZ idZ Zth eq_refl eq_refl
-           (fun _ _ => eq_refl) (fun _ => eq_refl) true lv rms env irs c Hwf Hi).
+  refine (dynamics_collapse_model Z 0%Z 1%Z Z.add Z.mul Z.sub Z.opp idZ idZ Zth eq_refl eq_refl
+           (fun _ _ => eq_refl) (fun _ => eq_refl) true ReplDict lv rms env irs c _ Hi).
+  eapply Forall_impl; [|exact Hwf]. cbv zeta. intros rm [extra [H1 [H2 [H3 [H4 [H5 H6]]]]]].
+  exists extra. repeat split; try assumption; try (right; exact H4).
+  - apply (H5 a H).
+  - apply (H5 a H).
+  - destruct (H5 a H) as [_ [_ H0]]. cbn [ext_name]. unfold benv. rewrite H0. cbn. lia.
 Qed.
 Print Assumptions dynamics_collapse_model_Z.
+
+(** per-occurrence form (after fixes/C05-homodimer.diff): no guard on repeated substrates, labelled bystanders allowed *)
+Theorem dynamics_collapse_model_pos_Z :
+  forall (lv : label_vars) (rms : list (brxn * list Z)) (env : lname -> Z) (irs : list (list lrxn)) (c : N),
+    Forall (fun rm =>
+              let r := fst rm in
+              let bs := subs_of (r_stoich r) in let bp := prods_of (r_stoich r) in
+              exists extra : list N,
+                r_fn r = FProd /\ Permutation (r_args r) (bs ++ extra) /\ NoDup (map fst (r_stoich r)) /\
+                (forall a, In a extra -> ~ In a bs /\ ~ In a bp /\ env (bystander_name lv a) = totalZ lv env a) /\
+                total (labels_per lv bp) <= length (snd rm)) rms ->
+    collect (map (fun rm => create_iso_rxns true ReplPositional lv (fst rm) (snd rm)) rms) = Ok irs ->
+    sumZ (map (fun bits => derivZ env (concat irs) (iso_name c bits)) (all_patterns (nlab lv c)))
+    = sumZ (map (fun rm => ((match getN c (r_stoich (fst rm)) with Some v => v | None => 0 end)
+                            * prodZ (map (totalZ lv env) (r_args (fst rm))))%Z) rms).
+Proof.
+  intros lv rms env irs c Hwf Hi.
+  refine (dynamics_collapse_model Z 0%Z 1%Z Z.add Z.mul Z.sub Z.opp idZ idZ Zth eq_refl eq_refl
+           (fun _ _ => eq_refl) (fun _ => eq_refl) true ReplPositional lv rms env irs c _ Hi).
+  eapply Forall_impl; [|exact Hwf]. cbv zeta. intros rm [extra [H1 [H2 [H3 [H5 H6]]]]].
+  exists extra. repeat split; try assumption; try (left; reflexivity); apply (H5 a H).
+Qed.
+Print Assumptions dynamics_collapse_model_pos_Z.
